@@ -419,6 +419,18 @@ def typeOfValue : Json → Prim
   | .arr _ => .list
   | .obj _ => .dict
 
+/-- `min(v, n)`; the existing value wins a tie -/
+def minJ (v : Json) (n : Num) : Json :=
+  match v with
+  | .num m => if m.lt n then .num m else .num n
+  | _ => .num n
+
+/-- `constraints['max_length'] = min(constraints.get('max_length', n), n)` (a dict has one entry per name) -/
+def capLength (cons : Cons) (n : Nat) : Cons :=
+  if (cons.lookup "max_length").isSome
+  then cons.map fun c => if c.1 == "max_length" then (c.1, minJ c.2 (Num.ofNat n)) else c
+  else cons ++ [("max_length", .num (Num.ofNat n))]
+
 /-- `parse_array` (parser.py) -/
 def parseArray (kvs : Obj) (subs : Subs) (cons : Cons) : Option Ty :=
   if keys kvs == ["type"] && cons.isEmpty then some (.prim .list) else
@@ -432,15 +444,8 @@ def parseArray (kvs : Obj) (subs : Subs) (cons : Cons) : Option Ty :=
     | some args =>
       (match items with
        | some (.bool false) =>
-         -- fix C15-8: no further items is also `max_length = len(prefixItems)`
-         let n : Num := Num.ofNat args.length
-         let limit : Json := match (cons.lookup "max_length").bind numOf with
-           | some m => if m.lt n then .num m else .num n          -- min(existing, len(args)): the existing one wins a tie
-           | none => .num n
-         let cons' := if (cons.lookup "max_length").isSome
-           then cons.map fun c => if c.1 == "max_length" then (c.1, limit) else c
-           else cons ++ [("max_length", limit)]
-         annotate (.tup args .reject .any) true cons'
+         -- fix C15-8: no further items is also `max_length = min(max_length, len(prefixItems))`
+         annotate (.tup args .reject .any) true (capLength cons args.length)
        | some v =>
          if truthy v then (match subOne subs "items" with
            | some t => annotate (.tup args .typed t) true cons
@@ -456,15 +461,21 @@ def parseArray (kvs : Obj) (subs : Subs) (cons : Cons) : Option Ty :=
       else annotate (.arr []) false cons
     | none => annotate (.arr []) false cons
 
+/-- `schema.get('required') or []` -/
+def requiredNames (kvs : Obj) : List String :=
+  match lookup "required" kvs with
+  | some v => strsOf v
+  | none => []
+
+/-- `schema.get('dependentRequired') or {}` -/
+def depsObj (kvs : Obj) : Obj :=
+  match lookup "dependentRequired" kvs with
+  | some (.obj d) => d
+  | _ => []
+
 /-- the names `required` / `dependentRequired` mention, in the order the parser visits them -/
 def mentioned (kvs : Obj) : List String :=
-  let req := match lookup "required" kvs with
-    | some v => if truthy v then strsOf v else []
-    | none => []
-  let deps := match lookup "dependentRequired" kvs with
-    | some (.obj d) => d
-    | _ => []
-  req ++ deps.map (·.1) ++ (deps.map fun d => strsOf d.2).flatten
+  requiredNames kvs ++ (depsObj kvs).map (·.1) ++ ((depsObj kvs).map fun d => strsOf d.2).flatten
 
 def dedupStr : List String → List String → List String
   | [], _ => []
@@ -490,50 +501,59 @@ def mkFields (props : List (String × Ty)) (attnames : List String) (req : List 
 
 def optNum (kvs : Obj) (k : String) : Option Num := (lookup k kvs).bind numOf
 
+/-- the declared properties with the types built for them -/
+def declaredProps (kvs : Obj) (subs : Subs) : List (String × Option Ty) :=
+  match lookup "properties" kvs with
+  | some v => if truthy v then subProps subs else []
+  | none => []
+
+/-- the names that are only mentioned by `required` / `dependentRequired` -/
+def implicitNames (kvs : Obj) (subs : Subs) : List String :=
+  dedupStr (mentioned kvs) ((declaredProps kvs subs).map (·.1))
+
+/-- `Options(addition=…)` of the class (fix C15-5: kept when the keyword is absent) -/
+def additionOf (kvs : Obj) (subs : Subs) : Option (AddK × Ty) :=
+  match lookup "additionalProperties" kvs with
+  | some (.obj _) => (subOne subs "additionalProperties").map fun t => (.typed, t)
+  | some (.bool false) => some (.reject, .any)
+  | _ => some (.free, .any)
+
+/-- the value type of a plain mapping -/
+def mapValue (kvs : Obj) (subs : Subs) : Option Ty :=
+  match lookup "additionalProperties" kvs with
+  | some (.obj _) => subOne subs "additionalProperties"
+  | _ => some .any
+
+/-- const / enum of an object: a rule over the class each, compared as a dict (in the order of the document) -/
+def layerEnums (cons : Cons) (cls : Ty) : Ty :=
+  cons.foldl (fun c kv =>
+    if kv.1 == "const" then Ty.rule c [("enum", .arr [kv.2])]
+    else if kv.1 == "enum" then Ty.rule c [("enum", kv.2)]
+    else c) cls
+
+/-- the `Schema` subclass for the properties `props` -/
+def objectClass (N : Names) (kvs : Obj) (props : List (String × Ty)) (addK : AddK) (addTy : Ty) : Ty :=
+  let names := props.map (·.1)
+  Ty.data (mkFields props (assignAttnames N names names []) (requiredNames kvs) (depsObj kvs)) addK addTy
+    (optNum kvs "minProperties") (optNum kvs "maxProperties")
+
 /-- `parse_object` (parser.py) -/
 def parseObject (N : Names) (kvs : Obj) (subs : Subs) (cons : Cons) : Option Ty :=
   if keys kvs == ["type"] && cons.isEmpty then some (.prim .dict) else
-  let declared := match lookup "properties" kvs with
-    | some v => if truthy v then subProps subs else []
-    | none => []
-  let declNames := declared.map (·.1)
-  let implicitNames := dedupStr (mentioned kvs) declNames
-  let ap := lookup "additionalProperties" kvs
-  if declNames.isEmpty && implicitNames.isEmpty && !(ap.map isFalse).getD false then
+  let declared := declaredProps kvs subs
+  let implicit := implicitNames kvs subs
+  if declared.isEmpty && implicit.isEmpty && !((lookup "additionalProperties" kvs).map isFalse).getD false then
     -- a plain mapping
-    let val := match ap with
-      | some (.obj _) => subOne subs "additionalProperties"
-      | _ => some .any
-    match val with
+    match mapValue kvs subs with
     | some v => annotate (.map v) true cons
     | none => none
   else
-    let addition : Option (AddK × Ty) := match ap with
-      | some (.obj _) => (subOne subs "additionalProperties").map fun t => (.typed, t)
-      | some (.bool false) => some (.reject, .any)
-      | _ => some (.free, .any)
-    match addition with
+    match additionOf kvs subs with
     | none => none
     | some (addK, addTy) =>
-      let implicit := implicitNames.map fun n => (n, implicitTy kvs subs)
-      let all := declared ++ implicit
-      match allSome (all.map fun p => p.2.map fun t => (p.1, t)) with
+      match allSome ((declared ++ implicit.map fun n => (n, implicitTy kvs subs)).map fun p => p.2.map fun t => (p.1, t)) with
       | none => none
-      | some props =>
-        let names := props.map (·.1)
-        let attnames := assignAttnames N names names []
-        let req := match lookup "required" kvs with
-          | some v => strsOf v
-          | none => []
-        let deps := match lookup "dependentRequired" kvs with
-          | some (.obj d) => d
-          | _ => []
-        let cls := Ty.data (mkFields props attnames req deps) addK addTy (optNum kvs "minProperties") (optNum kvs "maxProperties")
-        -- const / enum of an object: a rule over the class each, compared as a dict (in the order of the document)
-        some (cons.foldl (fun c kv =>
-          if kv.1 == "const" then Ty.rule c [("enum", .arr [kv.2])]
-          else if kv.1 == "enum" then Ty.rule c [("enum", kv.2)]
-          else c) cls)
+      | some props => some (layerEnums cons (objectClass N kvs props addK addTy))
 
 /-- the class a `format` names, when it is of primitive type `t` (fix C15-3) -/
 def formatClass (kvs : Obj) (t : String) : Option Prim :=
